@@ -18,7 +18,10 @@ SPEC = {'level': 'exploration',
                 rule='ban histories vs reference list; non-trivial = subnet ban covering a probe address + expiry crossed + unban'),
             gen('vh_c60', 'up_netaddress', 3000, 60000, rule='upstream CNetAddr target (supplementary)'),
             gen('vh_c60', 'up_banman', 150, 3000, rule='upstream BanMan target (supplementary)'),
-            gen('vh_c60', 'up_netbase_dns_lookup', 2000, 40000, rule='upstream lookup target (supplementary)')]}
+            gen('vh_c60', 'up_netbase_dns_lookup', 2000, 40000, rule='upstream lookup target (supplementary)'),
+        # coverage-guided libFuzzer campaign on the same target (thorough tier only; fz tree = g++ trace-pc + covshim)
+        fuzz('vh_c60', 'c60_subnet', 300, max_len=96),
+    ]}
 
 META = {'level_text': 'Generated IPv4/IPv6 subnets in all construction forms (prefix length, netmask address, both string forms, single host) with boundary-biased addresses '
                'are compared with an own bit-level CIDR reference on probe addresses at bits L-1, L, last, other family and mapped twins, plus an exhaustive '
